@@ -24,6 +24,9 @@ MODULES = {
     "stmts": "a = 1\nb = a\nc = 1\nd = c\nfor i in r:\n    e = 1\n    f = e\nif a:\n    g = 2\n    h = g\nelif b:\n    a = 1\n    b = a\nelse:\n    pass\n",
     "calls": "r = f(x)\ns = f(f(x))\nt = f(x) + g(f(x), y)\nu = [f(q) for q in f(x)]\nv = lambda x: f(x)\nw = data[n:]\nz = data[:n] + data[::n]\n",
 }
+MODULES["runs"] = "p = 1\nq = 1\nr = 1\ns = 1\nt = 2\nif p:\n    u = 1\n    v = 1\n    w = 1\nelse:\n    t = 2\n    t = 2\n"
+MODULES["comments"] = ("r = f(\n    x,  # first f( and x\n    # then y, or f(x, y) again\n    y)\nlst = [\n    a,  # one a\n    # b here, also [a, b]\n    b,\n]\n"
+                       "v = g(a)  # g(a) and g(b)\n# g(b)\nw = g(b)\n")
 W = ["__W0__", "__W1__"]
 
 
@@ -199,7 +202,7 @@ class C19(Check):
     chunksize = 4
 
     def bound_text(self, tier):
-        return "4 modules, patterns with <=2 wildcards, 4 goals"
+        return "6 modules, patterns with <=2 wildcards, 4 expression goals + a multi-line statement goal"
 
     def cases(self, tier):
         out = []
@@ -343,8 +346,9 @@ class C19(Check):
                         goals.append(("call-arg", "wrap(${w0})"))
                 else:
                     goals = [("same", ptxt)]
-                    if isinstance(pat, list) and len(pat) == 1:
-                        # a goal of several lines: the matched statement followed by `pass`, whatever the indentation of the match
+                    if isinstance(pat, list) and len(pat) <= 2:
+                        # a goal of several lines: the matched statements followed by `pass`, whatever the indentation of the match;
+                        # overlapping windows of a two-statement pattern are taken greedily from the top
                         goals.append(("then-pass", ptxt + "\npass"))
                 for gname, gtxt in goals:
                     res["n"] += 1
@@ -376,10 +380,15 @@ class C19(Check):
                         matched = {id(nodes[0]) for nodes, b in find_matches(ref_tree, pat)}
                         for lst in list(stmt_lists(ref_tree)):
                             new_lst = []
-                            for st in lst:
-                                new_lst.append(st)
-                                if id(st) in matched:
+                            i_ = 0
+                            while i_ < len(lst):
+                                if id(lst[i_]) in matched:
+                                    new_lst.extend(lst[i_:i_ + len(pat)])
                                     new_lst.append(ast.Pass())
+                                    i_ += len(pat)
+                                else:
+                                    new_lst.append(lst[i_])
+                                    i_ += 1
                             lst[:] = new_lst
                         ast.fix_missing_locations(ref_tree)
                         ref_text = ast.unparse(ref_tree)
